@@ -170,6 +170,28 @@ def registry_view(it, cls, name):
     return it.registry.view_for(cls, name)
 
 
+def _check_returns_kind(it, path, contract, result):
+    """A declared `returns` object kind is what callers get to see: an object of a class it does
+    not cover would be invisible to every caller's proof - not a verdict, a contract to repair."""
+    k = (contract.returns or "").strip()
+    if not (k.startswith("obj:") or k.startswith("oneof:")):
+        return
+    from .values import VRef
+    from .loader import ClassInfo
+
+    if not isinstance(result, VRef):
+        return
+    cls = path.heap[result.addr].cls
+    if not isinstance(cls, ClassInfo):
+        return
+    names = [a.strip() for a in k.split(":", 1)[1].split("|")]
+    for n in names:
+        ci = it.repo.lookup_class(n)
+        if ci is not None and cls.is_subclass_of(ci):
+            return
+    raise Unsupported(f"returns kind {k!r} of {contract.target} does not cover the returned {cls.qualname}")
+
+
 def run_path(repo, registry, func: VFunc, contract, prefix, feas_ms):
     path = Path(prefix, feas_timeout_ms=feas_ms)
     it = Interp(repo, registry, path)
@@ -225,6 +247,7 @@ def run_path(repo, registry, func: VFunc, contract, prefix, feas_ms):
         values = dict(bound)
         exc_names = [n[len("raises_"):] for n in contract.funcs if n.startswith("raises_")]
         if outcome[0] == "normal":
+            _check_returns_kind(it, path, contract, outcome[1])
             values["result"] = outcome[1]
             info["inputs"] = dict(info["inputs"])
             info["inputs"]["$result"] = outcome[1]
